@@ -22,7 +22,58 @@ pub(crate) struct Index<K> {
     pub paths: DbPaths,
     pub state: Arc<RwLock<IndexState<K>>>,
     pub wal: Mutex<WalManager>,
-    pub pending_intents: Mutex<HashMap<K, BlobHash>>,
+    pub pending_intents: Mutex<PendingIntents<K>>,
+}
+
+/// Commits whose blob is (or is about to be) in the CAS but not yet in the index.
+pub(crate) struct PendingIntents<K> {
+    /// The most recent intent per key.
+    by_key: HashMap<K, BlobHash>,
+    /// Number of in-flight commits per blob. Several commits may target the same key or store
+    /// the same content at once, so protection from deletion is counted per blob: in `by_key`
+    /// a newer intent replaces an older one, which would leave the older commit's blob
+    /// unprotected.
+    in_flight: HashMap<BlobHash, usize>,
+}
+
+impl<K> Default for PendingIntents<K> {
+    fn default() -> Self {
+        Self { by_key: HashMap::default(), in_flight: HashMap::default() }
+    }
+}
+
+impl<K> std::ops::Deref for PendingIntents<K> {
+    type Target = HashMap<K, BlobHash>;
+
+    fn deref(&self) -> &Self::Target {
+        &self.by_key
+    }
+}
+
+impl<K> std::ops::DerefMut for PendingIntents<K> {
+    fn deref_mut(&mut self) -> &mut Self::Target {
+        &mut self.by_key
+    }
+}
+
+impl<K> PendingIntents<K> {
+    /// True if some in-flight commit is going to reference the blob.
+    pub(crate) fn is_protected(&self, hash: &BlobHash) -> bool {
+        self.in_flight.contains_key(hash)
+    }
+
+    fn protect(&mut self, hash: BlobHash) {
+        *self.in_flight.entry(hash).or_insert(0) += 1;
+    }
+
+    fn unprotect(&mut self, hash: &BlobHash) {
+        if let Some(count) = self.in_flight.get_mut(hash) {
+            *count -= 1;
+            if *count == 0 {
+                self.in_flight.remove(hash);
+            }
+        }
+    }
 }
 
 /// A read-only view of the index state.
@@ -185,6 +236,8 @@ where
     size: u64,
     replaced_hash: Option<BlobHash>,
     committed: bool,
+    /// whether this guard still holds its in-flight protection of `hash`
+    protecting: bool,
 }
 
 #[derive(Debug, Clone, Copy)]
@@ -202,7 +255,14 @@ where
         mut self,
         delete_fn: &crate::types::DeleteBlobCallFn,
     ) -> Result<(), IndexError> {
-        self.index.apply_put_op(self.key.clone(), self.hash, self.size, delete_fn)?;
+        let index = self.index;
+        index.apply_put_op(
+            self.key.clone(),
+            self.hash,
+            self.size,
+            delete_fn,
+            &mut self.protecting,
+        )?;
         self.committed = true;
         Ok(())
     }
@@ -213,6 +273,10 @@ where
     K: Clone + Eq + Ord + std::hash::Hash,
 {
     fn drop(&mut self) {
+        if self.protecting {
+            self.index.pending_intents.lock().unprotect(&self.hash);
+            self.protecting = false;
+        }
         if !self.committed {
             // Revert: Remove our intent from pending_intents
             let mut intents = self.index.pending_intents.lock();
@@ -261,7 +325,7 @@ where
             paths,
             state,
             wal: Mutex::new(wal_manager),
-            pending_intents: Mutex::new(HashMap::default()),
+            pending_intents: Mutex::new(PendingIntents::default()),
         };
 
         // Only checkpoint after replay if we actually replayed something
@@ -293,6 +357,7 @@ where
 
         // Insert the new intent
         intents.insert(key.clone(), meta.blob_hash);
+        intents.protect(meta.blob_hash);
 
         Ok(IntentGuard {
             index: self,
@@ -301,6 +366,7 @@ where
             size: meta.blob_size,
             replaced_hash,
             committed: false,
+            protecting: true,
         })
     }
 
@@ -310,6 +376,7 @@ where
         hash: BlobHash,
         size: u64,
         delete_fn: &crate::types::DeleteBlobCallFn,
+        protecting: &mut bool,
     ) -> Result<(), IndexError> {
         let logical_op = WalOp::Put { key: key.clone(), hash, size };
         let mut intents = self.pending_intents.lock();
@@ -325,10 +392,14 @@ where
         #[cfg(feature = "verif-hooks")]
         crate::verif::point("apply_put:after_apply");
         intents.remove(&key);
+        // The index references the blob now; this commit no longer needs to protect it.
+        if *protecting {
+            intents.unprotect(&hash);
+            *protecting = false;
+        }
 
-        // Filter out any unreferenced hashes that are still referenced by other intents
-        unreferenced_from_op
-            .retain(|hash| !intents.values().any(|intent_hash| intent_hash == hash));
+        // Filter out any unreferenced hashes that are still needed by other in-flight commits
+        unreferenced_from_op.retain(|hash| !intents.is_protected(hash));
 
         // Delete blobs BEFORE any checkpoint
         if !unreferenced_from_op.is_empty() {
@@ -366,9 +437,8 @@ where
 
         #[cfg(feature = "verif-hooks")]
         crate::verif::point("apply_remove:after_apply");
-        // Remove any unreferenced hashes that are still referenced by intents
-        unreferenced_from_op
-            .retain(|hash| !intents.values().any(|intent_hash| intent_hash == hash));
+        // Remove any unreferenced hashes that are still needed by in-flight commits
+        unreferenced_from_op.retain(|hash| !intents.is_protected(hash));
 
         // Delete blobs BEFORE any checkpoint
         if !unreferenced_from_op.is_empty() {
